@@ -33,6 +33,7 @@ pub fn dispatch(name: &str) -> bool {
         "h_c09::commit_faults" => h_c09::commit_faults(),
         "h_c09::meld_faults" => h_c09::meld_faults(),
         "h_c02::delivery" => h_c02::delivery(),
+        "h_c02::dedup_across_packs" => h_c02::dedup_across_packs(),
         "h_c12::merged_arrays" => h_c12::merged_arrays(),
         "h_c12::maintenance" => h_c12::maintenance(),
         "h_c12::update_in_conflict" => h_c12::update_in_conflict(),
